@@ -390,6 +390,7 @@ func C06(ctx *Ctx) {
 	// each kind of failure has such a return, and Finalize has a success return
 	okRet := true
 	nLookupErr, nRangeErr, nNil := 0, 0, 0
+	forwarded, nilIn := map[string]bool{}, map[string]bool{} // helpers whose result Finalize returns / that have a nil return
 	for _, ev := range ip.Events {
 		if ev.Kind != "return" || ev.Fn == nil || len(ev.Args) == 0 {
 			continue
@@ -428,6 +429,8 @@ func C06(ctx *Ctx) {
 			case absint.TriT:
 				if ev.Fn == fin {
 					nNil++
+				} else {
+					nilIn[ev.Fn.Name()] = true
 				}
 				if lookupFailed || rangeFailed {
 					okRet = false
@@ -441,9 +444,33 @@ func C06(ctx *Ctx) {
 					nRangeErr++
 				}
 			default:
+				// the result of an error-returning helper handed on unchanged: its own returns are classified
+				// where they are made (their guards include the ones in force at the call)
+				if t, isTop := v.(*absint.Top); isTop && strings.HasPrefix(t.Key, "ret#") {
+					if ev.Fn == fin {
+						forwarded[t.Key[strings.Index(t.Key, ":")+1:]] = true
+					}
+					break
+				}
 				okRet = false
 				R.Fail("range-guard", "Finalize:error-return", pos, "cannot decide whether the returned error "+absint.ValKey(v)+" is nil on this path")
 			}
+		}
+	}
+	// no error is dropped on the way: in Finalize and everything it calls inside the package, the error result of
+	// every call reaches a return (or a panic) of the calling function, directly, through the named result, through
+	// a merge, or wrapped by another error-returning call
+	nErrCalls := 0
+	for _, f := range reachableInPackage(fin) {
+		for _, dropped := range droppedErrors(f, &nErrCalls) {
+			okRet = false
+			R.Fail("range-guard", "Finalize:error-dropped:"+fnShort(f), ctx.Prog.Pos(dropped.Pos()), "the error returned by this call does not reach a return of "+f.Name()+": a failure it reports would end in success")
+		}
+	}
+	R.Count("error-returning-calls", nErrCalls)
+	for h := range forwarded {
+		if nilIn[h] {
+			nNil++ // Finalize succeeds by handing on the helper's nil
 		}
 	}
 	if nLookupErr < 2 || nRangeErr < 1 || nNil < 1 {
@@ -566,4 +593,132 @@ func checkLabelRedefine(ctx *Ctx, roles *EmitterRoles) {
 	R.Pass("redefine", "Label", pos, "stores labels[name] = address only when undefined; redefinition panics")
 	_ = token.ADD
 	_ = types.Typ
+}
+
+// reachableInPackage lists fn and the functions of its package it can reach through static calls, closures it makes
+// and method values it binds.
+func reachableInPackage(fn *ssa.Function) []*ssa.Function {
+	seen := map[*ssa.Function]bool{fn: true}
+	out := []*ssa.Function{fn}
+	for i := 0; i < len(out); i++ {
+		f := out[i]
+		add := func(g *ssa.Function) {
+			if g == nil || seen[g] || g.Blocks == nil {
+				return
+			}
+			if g.Pkg != fn.Pkg && !(g.Parent() != nil && g.Parent().Pkg == fn.Pkg) && g.Synthetic == "" {
+				return
+			}
+			seen[g] = true
+			out = append(out, g)
+		}
+		for _, b := range f.Blocks {
+			for _, in := range b.Instrs {
+				var ops [16]*ssa.Value
+				for _, op := range in.Operands(ops[:0]) {
+					if op == nil || *op == nil {
+						continue
+					}
+					switch v := (*op).(type) {
+					case *ssa.Function:
+						add(v)
+					case *ssa.MakeClosure:
+						if g, ok := v.Fn.(*ssa.Function); ok {
+							add(g)
+						}
+					}
+				}
+			}
+		}
+	}
+	return out
+}
+
+// droppedErrors returns the calls in f whose error result reaches neither a return nor a panic of f.
+func droppedErrors(f *ssa.Function, n *int) []*ssa.Call {
+	var out []*ssa.Call
+	isErr := func(t types.Type) bool { return t.String() == "error" }
+	for _, b := range f.Blocks {
+		for _, in := range b.Instrs {
+			c, ok := in.(*ssa.Call)
+			if !ok {
+				continue
+			}
+			res := c.Call.Signature().Results()
+			if res.Len() == 0 || !isErr(res.At(res.Len()-1).Type()) {
+				continue
+			}
+			*n++
+			flow := map[ssa.Value]bool{}
+			var work []ssa.Value
+			push := func(v ssa.Value) {
+				if !flow[v] {
+					flow[v] = true
+					work = append(work, v)
+				}
+			}
+			push(c)
+			reached := false
+			for len(work) > 0 && !reached {
+				v := work[len(work)-1]
+				work = work[:len(work)-1]
+				refs := v.Referrers()
+				if refs == nil {
+					continue
+				}
+				for _, r := range *refs {
+					switch x := r.(type) {
+					case *ssa.Return, *ssa.Panic:
+						reached = true
+					case *ssa.Extract:
+						if tup, ok := x.Tuple.Type().(*types.Tuple); ok && x.Index == tup.Len()-1 {
+							push(x)
+						}
+					case *ssa.Phi:
+						push(x)
+					case *ssa.MakeInterface:
+						push(x)
+					case *ssa.ChangeInterface:
+						push(x)
+					case *ssa.Store:
+						if x.Val == v {
+							if a, ok := x.Addr.(*ssa.Alloc); ok {
+								for _, u := range *a.Referrers() {
+									if ld, ok := u.(*ssa.UnOp); ok && ld.Op == token.MUL {
+										push(ld)
+									}
+								}
+							}
+						}
+					case *ssa.Call:
+						// handed to another error-returning call (wrapping): the flow continues with its result
+						r2 := x.Call.Signature().Results()
+						if r2.Len() > 0 && isErr(r2.At(r2.Len()-1).Type()) {
+							push(x)
+						}
+					case *ssa.Slice, *ssa.IndexAddr:
+						// varargs of a wrapping call: follow the array the value is stored in
+					}
+				}
+				// a value stored into a varargs array element: follow the slice made from that array
+				for _, r := range *refs {
+					if st, ok := r.(*ssa.Store); ok && st.Val == v {
+						if ia, ok := st.Addr.(*ssa.IndexAddr); ok {
+							if al, ok := ia.X.(*ssa.Alloc); ok {
+								for _, u := range *al.Referrers() {
+									if sl, ok := u.(*ssa.Slice); ok {
+										push(sl)
+									}
+								}
+							}
+						}
+					}
+				}
+			}
+			if !reached {
+				out = append(out, c)
+			}
+		}
+	}
+	return out
 }
